@@ -414,6 +414,16 @@ def directed_cases(ctx, rng):
              ['dict', 'str', ['union', ['list', 'int'], ['list', 'str'],
                               'int']],
              ['union', ['list', ['list', 'int']], ['list', ['list', 'str']]]]
+    def respell(t, L, M):
+        if isinstance(t, str):
+            return t
+        if t[0] == 'list':
+            return [L] + [respell(x, L, M) for x in t[1:]]
+        if t[0] == 'dict':
+            return [M] + [respell(x, L, M) for x in t[1:]]
+        return [t[0]] + [respell(x, L, M) for x in t[1:]]
+    types = [respell(t, L, M) for t in types
+             for L, M in (('list', 'dict'), ('seq', 'map'), ('mseq', 'mmap'))]
     for dt in types:
         for d in docs:
             ctx.count('directed_container_unions')
